@@ -4,6 +4,8 @@ import (
 	"fmt"
 
 	"github.com/alttpo/snes/asm"
+	"github.com/alttpo/snes/emulator/cpu65c816"
+	"github.com/alttpo/snes/emulator/cpualt"
 
 	"verif/sim"
 )
@@ -97,6 +99,9 @@ func (c07) Gen(r *sim.Rand, tier string, run uint64) *sim.Scenario {
 	}
 	sc.Ops = ops
 	sc.Cfg["a"] = int64(r.Intn(6)) // initial accumulator: bounds MVN's repeat count
+	if r.Chance(1, 25) {
+		sc.Cfg["initfrom"] = 1
+	}
 	return sc
 }
 
@@ -250,6 +255,19 @@ func (c07) Exec(sc *sim.Scenario, env *sim.Env) *sim.Violation {
 			mc = NewBusMachine(env, 0, mem)
 		} else {
 			mc = NewAltMachine(env, 0, mem, 0, 0)
+		}
+		if sc.C("initfrom") != 0 {
+			// the program runs on a CPU made with InitFrom (a copy of another instance)
+			if kind == 0 {
+				cp := &cpu65c816.CPU{}
+				cp.InitFrom(mc.CPU.(cpuA).c, mc.busA)
+				mc = &Machine{CPU: cpuA{cp}, Mem: mem, busA: mc.busA}
+			} else {
+				cp := &cpualt.CPU{}
+				cp.InitFrom(mc.altB)
+				mc = &Machine{CPU: cpuB{cp}, Mem: mem, altB: cp}
+			}
+			st.Probe("cpu_made_with_InitFrom")
 		}
 		cpu := mc.CPU
 		a := uint16(sc.C("a")) & 7
